@@ -71,9 +71,15 @@ theorem scalar_spec (v1 v2 : List ℝ) (h : v1.length = v2.length) :
 /-- `mean` is Σv / n -/
 theorem mean_spec (v : List ℝ) : mean v = v.sum / (v.length : ℝ) := mean_eq v
 
-/-- weighted `mean` with normalisation is (Σ vᵢ·wᵢ)/(Σ w) -/
-theorem mean_weighted_spec (v w : List ℝ) (h : v.length = w.length) :
+/-- weighted `mean` with normalisation is (Σ vᵢ·wᵢ)/(Σ w), for weights that do not sum to 0.
+(`_hw` is not needed by the proof — in exact arithmetic both sides are the same quotient — but for
+`Σw = 0` the code divides every weight by zero: the statement is deliberately restricted to the
+region where the exact reading means something.) -/
+theorem mean_weighted_spec (v w : List ℝ) (h : v.length = w.length) (_hw : w.sum ≠ 0) :
     meanW v w true = .ok ((List.zipWith (· * ·) v w).sum / w.sum) := meanW_eq v w h
+
+example : meanW ([1, 2] : List ℝ) [1, 3] true = .ok ((1 * 1 + 2 * 3) / (1 + 3)) := by
+  rw [mean_weighted_spec [1, 2] [1, 3] rfl (by norm_num)]; norm_num
 
 /-- weighted `mean` without normalisation is Σ vᵢ·wᵢ -/
 theorem mean_weighted_raw_spec (v w : List ℝ) (h : v.length = w.length) :
